@@ -2,7 +2,7 @@
 from vf.driver import contract_units
 
 LEVEL = "proof"
-MODULES = ["contracts.c_utils", "contracts.c_primitives", "contracts.c_protocol", "contracts.c_client", "contracts.c_factories"]
+MODULES = ["contracts.c_utils", "contracts.c_primitives", "contracts.c_protocol", "contracts.c_client", "contracts.c_factories", "contracts.c_proxy"]
 EXPLANATION = "Client framing and result handling proved against contracts; requests decodable = C01."
 
 
